@@ -215,6 +215,14 @@ class Symb:
         return self.conv(args[0]) - self.conv(args[1])
       if d in ('jax.numpy.divide', 'jax.numpy.true_divide') and len(args) == 2:
         return self.conv(args[0]) / self.conv(args[1])
+      if d in ('jax.numpy.equal', 'jax.numpy.not_equal') and len(args) == 2:
+        return self.f('eq' if d.endswith('.equal') else 'ne', *sorted([self.conv(args[0]), self.conv(args[1])], key=sp.default_sort_key))
+      if d in ('jax.numpy.mod', 'jax.numpy.remainder') and len(args) == 2:
+        return self.conv(T('bin', '%', args[0], args[1]))
+      if d in ('jax.numpy.floor_divide',) and len(args) == 2:
+        return self.conv(T('bin', '//', args[0], args[1]))
+      if d in ('jax.numpy.negative',) and len(args) == 1:
+        return -self.conv(args[0])
       if d in ('jax.numpy.greater',) and len(args) == 2:
         return self.f('lt', self.conv(args[1]), self.conv(args[0]))
       if d in ('jax.numpy.greater_equal',) and len(args) == 2:
